@@ -52,12 +52,25 @@ optimize_lvalue_list (parse_node_t * expr)
 #define OPTIMIZER_IN_COND	 2	/* switch or if or ?: */
 static int optimizer_state = 0;
 
+static int optimize_depth;
+
+static parse_node_t *optimize_1 (parse_node_t * expr);
+
 static parse_node_t *
 optimize (parse_node_t * expr)
 {
-  if (!expr)
-    return 0;
+  /* see i_generate_node(), which reports the tree that is left alone here */
+  if (!expr || optimize_depth >= MAX_TREE_DEPTH)
+    return expr;
+  optimize_depth++;
+  expr = optimize_1 (expr);
+  optimize_depth--;
+  return expr;
+}
 
+static parse_node_t *
+optimize_1 (parse_node_t * expr)
+{
   switch (expr->kind)
     {
     case NODE_TERNARY_OP:
@@ -529,6 +542,7 @@ short generate_function (compiler_function_t* f, parse_node_t * node, int num) {
     {
       optimizer_start_function (num);
       optimizer_state = 0;
+      optimize_depth = 0;
       node = optimize (node);
       optimizer_end_function ();
     }
